@@ -131,6 +131,13 @@ def run(plan):
         rest_ok = len(rest) == 0 or float(np.min(w_[rest])) + lo >= 300 * noise
         V, _, inv, const, _, _ = ref.unpack(X, r)
         Vk = U[:, keep]
+        if float(w_[0]) + lo <= noise:
+          # the regularised input is not numerically positive definite
+          # (float32 statistics have eigenvalues of -n u lambda_max): outside
+          # the property's quantifier (PSD after ridge)
+          ctx.ev('packed_root', 'vacuous')
+          ctx.probe('packed_not_psd_after_ridge')
+          continue
         # retained subspace (gap-conditioned)
         proj = float(np.max(np.abs(V @ V.T - Vk @ Vk.T)))
         tol_p = 1e-3 + 64 * d * 2.0 ** -24 * max(lmax, 1e-30) / gap
@@ -141,13 +148,7 @@ def run(plan):
           ctx.violate('packed_root', mk, 'retained_subspace_' +
                       ('negative_rank' if r < 0 else 'positive_rank'), tick=t,
                       leaf=i, stat=j, proj_err=proj, tol=tol_p, d=d, r=r, p=p)
-        cands = [lo, hi] if hi > lo else [lo]
-        if hi > lo > 0:
-          cands += list(np.exp(np.linspace(np.log(lo), np.log(hi), 60)))
-        elif hi > lo:
-          cands += list(np.linspace(lo, hi, 60))
-        best = None
-        for dd in cands:
+        def mismatch(dd):
           ev = np.maximum(w_ + dd, dd)
           with np.errstate(divide='ignore'):
             rv = np.where(ev > 0, ev ** (-1.0 / p), 0.0)
@@ -162,9 +163,32 @@ def run(plan):
           if rest_ok and len(rest):
             c = float(np.mean(rv[rest]))
             e2 = abs(c - const) / max(abs(c), 1e-300)
-          e = max(e1, e2)
-          if best is None or e < best[0]:
-            best = (e, dd)
+          return max(e1, e2)
+        # existential in the ridge: coarse log grid, then golden-section
+        # refinement around the best grid point
+        if hi > lo > 0:
+          grid = list(np.exp(np.linspace(np.log(lo), np.log(hi), 40)))
+        elif hi > lo:
+          grid = list(np.linspace(lo, hi, 40))
+        else:
+          grid = [lo]
+        vals = [mismatch(dd) for dd in grid]
+        bi = int(np.argmin(vals))
+        best = (vals[bi], grid[bi])
+        if len(grid) > 1:
+          a_, b_ = grid[max(bi - 1, 0)], grid[min(bi + 1, len(grid) - 1)]
+          gr = 0.6180339887498949
+          for _ in range(40):
+            c_ = b_ - gr * (b_ - a_)
+            d_ = a_ + gr * (b_ - a_)
+            if mismatch(c_) < mismatch(d_):
+              b_ = d_
+            else:
+              a_ = c_
+          mid = 0.5 * (a_ + b_)
+          vm = mismatch(mid)
+          if vm < best[0]:
+            best = (vm, mid)
         if not keep_ok and not rest_ok:
           ctx.ev('packed_root', 'vacuous')
         else:
